@@ -104,8 +104,12 @@ def program(x):
         elif shape == "via_prefix":        # ... or through the enum-level prefix
             enum_attrs = ['#[strum(prefix = "{0}-")]']
             bad = ["    Bad,"]
+        elif shape == "nonascii_prefix":     # multi-byte text in front of the placeholder, contributed by the prefix
+            enum_attrs = ['#[strum(prefix = "\u00fcn\u00efc\u00f6d\u00e9/")]']
+            bad = ['    #[strum(to_string = "{0}")]', "    Bad,"]
         else:
-            lit = {"index": "a {0}", "name": "a {name}", "spec": "{0:>4}"}[shape]
+            lit = {"index": "a {0}", "name": "a {name}", "spec": "{0:>4}", "nonascii_arg": "{\u00e9}", "nonascii_before": "\u6570\u91cf: {0}",
+                   "nonascii_around": "\u00a3\u00a3\u00a3 {0} \u00a3"}[shape]
             bad = ['    #[strum(to_string = "%s")]' % lit, "    Bad,"]
     elif rule == "empty_placeholder":
         bad = ['    #[strum(to_string = "a {}")]', "    Bad(u8),"]
